@@ -12,7 +12,8 @@ reconstruct_contig / reverse_complement_segment). Segments are written `[rawLen:
 * `range-reconstruct <k> <segs>`              → `ok <hex>` | `err`
 * `range-rc <hex>`                            → `ok <hex>`
 -/
-namespace Driver
+namespace Driver.HRange
+open Driver
 open Ragc.Range
 
 def parseSeg (s : String) : Option Seg :=
@@ -70,4 +71,8 @@ def handleRange : List String → Option String
     some ("ok " ++ toHex (reverseComplementSegment s))
   | _ => none
 
+end Driver.HRange
+
+namespace Driver
+export HRange (handleRange)
 end Driver
